@@ -238,6 +238,71 @@ pub fn run(p: &Plan, threads: usize, rounds: usize, simd_expected: bool, id0: &m
             }
         }
     }
+    // histories over mandatory fields: a long-lived filter moves between contexts, some of which leave mandatory
+    // fields unset; the outcome (true / false / panic) of a (filter, context) pair must be the one a fresh
+    // compilation shows on its first execution, at every point of the history and on every thread
+    {
+        let mspec = scalar_scheme(false, true);
+        let mscheme = build_scheme(&mspec);
+        let msch: &'static wirefilter::Scheme = Box::leak(Box::new(mscheme));
+        let srcs = ["i == 1 or j == 2", "i == 1 and j == 2", "b1 or b2", "b1 and b2", "b1 or b2 or b3", "b1 and b2 and b3", "b1 and b2 or b3",
+                    "not (i == 1 or j == 2)", "i == 1 xor j == 2", "i == 1 || b1 || j == 2", "(i == 1 or b1) and (j == 2 or b2)", "i in {1 2} or j in {2 3}",
+                    "s == \"ab\" or i == 1", "ip == 10.0.0.1 and b1"];
+        // partial contexts: each of i, j, b1, b2, b3, s, ip set or unset
+        let mut pc: Vec<wirefilter::ExecutionContext<'static>> = Vec::new();
+        for m in 0u32..48 {
+            let mut c = wirefilter::ExecutionContext::<()>::new(msch);
+            if m & 1 != 0 { c.set_field_value_from_name("i", if m & 32 != 0 { 1i64 } else { 5 }).unwrap(); }
+            if m & 2 != 0 { c.set_field_value_from_name("j", if m & 16 != 0 { 2i64 } else { 5 }).unwrap(); }
+            if m & 4 != 0 { c.set_field_value_from_name("b1", m & 16 != 0).unwrap(); }
+            if m & 8 != 0 { c.set_field_value_from_name("b2", m & 32 != 0).unwrap(); }
+            if m % 3 == 0 { c.set_field_value_from_name("b3", m % 2 == 0).unwrap(); }
+            if m % 5 < 2 { c.set_field_value_from_name("s", &b"ab"[..]).unwrap(); }
+            if m % 7 < 3 { c.set_field_value_from_name("ip", std::net::IpAddr::from([10, 0, 0, 1])).unwrap(); }
+            pc.push(c);
+        }
+        let outcome = |f: &wirefilter::Filter, c: &wirefilter::ExecutionContext<'static>| -> &'static str {
+            match std::panic::catch_unwind(std::panic::AssertUnwindSafe(|| f.execute(c))) {
+                Ok(Ok(true)) => "true",
+                Ok(Ok(false)) => "false",
+                Ok(Err(_)) => "error",
+                Err(_) => "panic",
+            }
+        };
+        let pc = Arc::new(pc);
+        for src in srcs {
+            let Ok(ast) = msch.parse(src) else { continue };
+            let long = Arc::new(ast.compile());
+            let refs: Vec<&'static str> = pc.iter().map(|c| outcome(&msch.parse(src).unwrap().compile(), c)).collect();
+            let nthreads = threads.min(4);
+            let seen: Vec<Vec<Vec<&'static str>>> = std::thread::scope(|s| {
+                let hs: Vec<_> = (0..nthreads).map(|t| {
+                    let long = long.clone();
+                    let pc = pc.clone();
+                    s.spawn(move || {
+                        let mut seen: Vec<Vec<&'static str>> = vec![Vec::new(); pc.len()];
+                        let mut x = (t as u64 + 1) * 0x9e3779b97f4a7c15;
+                        for _ in 0..(40 * pc.len()) {
+                            x ^= x << 13; x ^= x >> 7; x ^= x << 17;
+                            let c = (x % pc.len() as u64) as usize;
+                            let o = outcome(&long, &pc[c]);
+                            if !seen[c].contains(&o) { seen[c].push(o); }
+                        }
+                        seen
+                    })
+                }).collect();
+                hs.into_iter().map(|h| h.join().unwrap()).collect()
+            });
+            for c in 0..pc.len() {
+                let mut all: Vec<&'static str> = Vec::new();
+                for t in 0..nthreads { for o in &seen[t][c] { if !all.contains(o) { all.push(o); } } }
+                if all.is_empty() { continue; }
+                all.sort();
+                out.push(json!({"ev": "agree", "id": *id0, "th": 0, "threads": nthreads, "src": src, "c": c + 1, "ref": refs[c], "seen": all}));
+                *id0 += 1;
+            }
+        }
+    }
     // recompilation: a fresh compilation of every filter must agree too (fresh random anchors)
     for f in 0..nf {
         let fresh = scheme.parse(&p.filters[f].2).unwrap().compile();
